@@ -107,8 +107,7 @@ impl WorkerPool {
 
             let result_sender_clone = result_sender.clone();
             let db_clone = database.clone();
-            let dropped = Arc::new(AtomicU64::new(0));
-            worker_dropped.push(Arc::clone(&dropped));
+            worker_dropped.push(Arc::new(AtomicU64::new(0)));
             let shutdown_flag_clone = Arc::clone(&shutdown_flag);
             let worker_filter = filter_config.clone();
 
@@ -120,7 +119,6 @@ impl WorkerPool {
                         rx,
                         result_sender_clone,
                         db_clone,
-                        dropped,
                         shutdown_flag_clone,
                         WorkerConfig { batch_size, timeout_ms, max_connections },
                         worker_filter,
@@ -153,7 +151,6 @@ impl WorkerPool {
         rx: crossbeam_channel::Receiver<Vec<u8>>,
         result_sender: std::sync::mpsc::Sender<HttpAnalysisResult>,
         database: Option<Arc<db::Database>>,
-        dropped: Arc<AtomicU64>,
         shutdown_flag: Arc<AtomicBool>,
         config: WorkerConfig,
         filter_config: Option<FilterConfig>,
@@ -206,8 +203,7 @@ impl WorkerPool {
                                 }
                             }
                             Err(_) => {
-                                // Packet processing error, increment dropped count
-                                dropped.fetch_add(1, Ordering::Relaxed);
+                                // Analysed with an error: the packet was queued, it is not a drop
                             }
                         }
                     }
